@@ -45,7 +45,24 @@ ListedSeq == SetToSeq(ListedIds \cup {k + 1 : k \in ListedIds} \cup {65535})
 ServerIdCases ==
   [q \in 1..Len(ListedSeq) |-> [kind |-> "new_server_hello", ver |-> 771, random |-> Rand(2, 32), sid |-> None,
                                  ciphers |-> <<ListedSeq[q] % 65536>>, comp |-> <<0>>, ext |-> None]]
-ASSUME TLCSet(1, NewCases \o ParsedCases \o AllIdCases \o ServerIdCases)
+(* the lookup is per element: every list of length <= 4 over {two listed ids, a GREASE id, an unlisted id} - repeats, *)
+(* alternations and unlisted ids between listed ones                                                                  *)
+PatIds == <<47, 4865, 2570, 65535>>
+PatIdx == SetToSeq(UNION {[1..n -> 1..4] : n \in 1..4})
+PatternCases ==
+  [q \in 1..Len(PatIdx) |->
+    [kind |-> <<"new_client_hello", "parsed_client_hello", "parsed_dtls_client_hello">>[(q % 3) + 1],
+     ver |-> <<771, 771, 65277>>[(q % 3) + 1], random |-> Rand(1, 32), sid |-> None,
+     ciphers |-> [j \in 1..Len(PatIdx[q]) |-> PatIds[PatIdx[q][j]]], comp |-> <<0>>, ext |-> None]]
+(* randoms to which RFC 8446 attaches a meaning: the accessors still report the stored fields *)
+MagicRands == <<HrrRandom, Fill(1, 24) \o Downgrade12, Fill(2, 24) \o Downgrade11>>
+MagicCases ==
+  Concat([r \in 1..3 |->
+    [q \in 1..5 |->
+      [kind |-> <<"new_server_hello", "parsed_server_hello", "new_client_hello", "parsed_client_hello", "parsed_dtls_client_hello">>[q],
+       ver |-> <<771, 771, 769, 772, 65277>>[q], random |-> MagicRands[r], sid |-> Sids[r],
+       ciphers |-> IF q <= 2 THEN <<4865>> ELSE <<4865, 47>>, comp |-> <<0>>, ext |-> Exts[r]]]])
+ASSUME TLCSet(1, NewCases \o ParsedCases \o AllIdCases \o ServerIdCases \o PatternCases \o MagicCases)
 Cases == TLCGet(1)
 N == Len(Cases)
 
